@@ -459,4 +459,104 @@ def q_c08_get_first(bodies):
                 check_message=(problems[0][0] if problems else "get_first is the first id of the document or the default id"))
 
 
-QUERIES_C08 = [q_c08_get_range, q_c08_get_fingerprint, q_c08_get_first]
+def q_c08_prefixes_of(bodies):
+    """`StoreInstance::prefixes_of` -> `ParentIterator::new` -> `parents(..)` -> `ParentIterator::next`, executed: the parents of
+    an identifier are looked up in the RECORDS table of the current tables, for the identifier's own namespace, author and key
+    (what `parents` returns for them — every stored entry at the key or a prefix of it, deletion markers and the empty key
+    included, shortest key first — is the Kani harness `parents_law_*`), and the iterator hands out exactly that list, in order."""
+    name = "c08_prefixes_of"
+    from stdmodels import PMExec, Inconclusive, std_models, seq_next
+    hits = _find(bodies, r"^store::fs::<impl at [^>]*>::prefixes_of$", r"StoreInstance")
+    newb = _find(bodies, r"^store::fs::<impl at [^>]*>::new$", r"Result<ParentIterator")
+    nextb = _find(bodies, r"^store::fs::<impl at [^>]*>::next$", r"^_1: &mut ParentIterator")
+    fields = _tables_fields()
+    m = re.search(r"pub struct StoreInstance<'a> \{(.*?)\n\}", _src("src/store/fs.rs"), re.S)
+    sf = re.findall(r"^\s*(?:pub(?:\([^)]*\))? )?(\w+)\s*:", m.group(1), re.M) if m else []
+    if len(hits) != 1 or len(newb) != 1 or len(nextb) != 1 or "records" not in fields or sorted(sf) != ["namespace", "store"]:
+        return dict(name=name, property="C08", verdict="inconclusive", detail="bodies not found (%d %d %d)" % (len(hits), len(newb), len(nextb)), functions=[])
+    problems, nq, ncases, funcs = [], 0, 0, set()
+    for K in (0, 1, 2):
+        smt = Smt()
+        for f, n in (("C_Ok", 1), ("C_Err", 1), ("C_Some", 1), ("C_None", 0), ("C_Continue", 1), ("C_Break", 1), ("C_seq", 1), ("ns_of", 1), ("author_of", 1), ("key_of", 1), ("discr", 1)):
+            smt.fun(f, n)
+        for c in ("SELF", "STORE", "MYNS", "TBL", "TERR", "ID", "UNIT"):
+            smt.decls.append("(declare-const %s V)" % c)
+        for i in range(K):
+            smt.decls.append("(declare-const P%d V)" % i)
+        smt.decls.append("(declare-const tables_ok Bool)")
+        models = std_models()
+
+        def m_parents(ex, v, env, K=K):
+            env["__log"] = env.get("__log", ()) + (("parents", v[0], v[1], v[2], v[3]),)
+            return ex.new_seq(env, ["P%d" % i for i in range(K)])
+        m_parents.wants_env = True
+        models.update({
+            r"^<store::fs::Store as AsMut<store::fs::Store>>::as_mut$": lambda ex, v: v[0],
+            r"^store::fs::Store::tables$": lambda ex, v: [("tables_ok", "(C_Ok (ref TBL))"), ("(not tables_ok)", "(C_Err TERR)")],
+            r"^RecordIdentifier::namespace$": lambda ex, v: "(ns_of %s)" % mk_deref(v[0]),
+            r"^RecordIdentifier::author$": lambda ex, v: "(author_of %s)" % mk_deref(v[0]),
+            r"^RecordIdentifier::key$": lambda ex, v: "(ref (key_of %s))" % mk_deref(v[0]),
+            r"^<Vec<u8> as Clone>::clone$": lambda ex, v: mk_deref(v[0]),
+            r"^parents::<": m_parents,
+        })
+        ex = PMExec(bodies, smt, models=models, max_paths=200, max_depth=3000,
+                    inline=[(r"^ParentIterator::new$", r"^store::fs::<impl at [^>]*>::new$", r"Result<ParentIterator")])
+        try:
+            paths = ex.run(hits[0], ["SELF", "(ref ID)"], heap0={("SELF", str(sf.index("namespace"))): "MYNS", ("SELF", str(sf.index("store"))): "STORE"}, feasibility=False)
+        except (Inconclusive, ValueError, AssertionError, KeyError, IndexError, RecursionError) as e:
+            problems.append(("prefixes_of can be followed", "inconclusive", "K=%d: %r" % (K, e)))
+            continue
+        funcs |= ex.inlined
+        RECORDS = "(addr (ref TBL) %s)" % ex.ksym(str(fields.index("records")))
+        for pc, ret, calls, env in paths:
+            ncases += 1
+            if "(not tables_ok)" in pc:
+                if not ret.startswith("(C_Err"):
+                    problems.append(("a storage error is reported", "sat", ret[:50]))
+                continue
+            par = [l for l in env.get("__log", ()) if l[0] == "parents"]
+            if len(par) != 1 or par[0][1:] != (RECORDS, "(ns_of ID)", "(author_of ID)", "(key_of ID)"):
+                problems.append(("the parents of an identifier are looked up in the records table for its own namespace, author and key", "sat", "K=%d parents calls=%s" % (K, par)))
+                continue
+            if not ret.startswith("(C_Ok (mk_"):
+                problems.append(("prefixes_of answers with a ParentIterator", "sat", ret[:60]))
+                continue
+            it = split_sexpr_args(split_sexpr_args(ret)[0])[0]
+            # drive next()
+            outs, e2 = [], {k: v for k, v in env.items() if k.startswith("__")}
+            hp = dict(e2.get("__heap", {}))
+            hp[("PIT", "0")] = it
+            e2["__heap"] = hp
+            ok = True
+            for _ in range(K + 1):
+                res = []
+                e3 = dict(e2)
+                e3["_1"] = "PIT"
+                try:
+                    ex._walk(nextb[0], "bb0", e3, [], [], res, 0)
+                except (Inconclusive, ValueError, KeyError) as e:
+                    problems.append(("ParentIterator::next can be followed", "inconclusive", "%r" % (e,)))
+                    ok = False
+                    break
+                if len(res) != 1:
+                    problems.append(("ParentIterator::next has one outcome per call", "inconclusive", "%d" % len(res)))
+                    ok = False
+                    break
+                outs.append(res[0][1])
+                e2 = {k: v for k, v in res[0][3].items() if k.startswith("__")}
+            funcs |= ex.inlined
+            want = ["(C_Some P%d)" % i for i in range(K)] + ["C_None"]
+            if ok and outs != want:
+                problems.append(("the iterator hands out exactly the list parents() computed, in its order", "sat", "K=%d got=%s" % (K, outs)))
+    verdict = "holds"
+    if any(p[1] == "inconclusive" for p in problems):
+        verdict = "inconclusive"
+    if any(p[1] != "inconclusive" for p in problems):
+        verdict = "violated"
+    problems.sort(key=lambda p: p[1] == "inconclusive")
+    return dict(name=name, property="C08", verdict=verdict, detail="paths=%d; problems: %s" % (ncases, problems[:4] or "none"),
+                functions=sorted(funcs) + ["parents() (Kani harness parents_law_*)"], queries=nq, cases=ncases, witness="d1",
+                check_message=(problems[0][0] if problems else "prefixes_of is parents() of the identifier's own namespace, author and key"))
+
+
+QUERIES_C08 = [q_c08_get_range, q_c08_get_fingerprint, q_c08_get_first, q_c08_prefixes_of]
